@@ -36,7 +36,7 @@ ASSUMPTIONS = [
 COMPONENTS = {"real": ["jaxtyping._import_hook (finder, loader, transformer, Typechecker)", "CPython importlib incl. bytecode read/validate/write",
                        "file system (temp dir)"],
               "stub": ["process restart (soft)", "spy typecheckers sim.hsim_spy.a/b", "clock (os.utime from a simulated clock)"]}
-HOOKABLE = ["foo", "foo.sub", "foo.util", "foobar", "foo_bar", "fo", "bar", "bar.baz", "foox", "foox.sub"]
+HOOKABLE = ["foo", "foo.sub", "foo.util", "foobar", "foo_bar", "fo", "bar", "bar.baz", "foox", "foox.sub", "chk", "chk.core"]
 
 
 def worker_init():
@@ -70,7 +70,7 @@ def gen(seed, tier="quick"):
         for _ in range(nh):
             hid += 1
             names = sorted(set(r.choice(HOOKABLE) for _ in range(r.randrange(1, 4))))
-            ops.append({"op": "install", "id": f"h{hid}", "names": names, "checker": r.choice(("a", "a", "b", "none")),
+            ops.append({"op": "install", "id": f"h{hid}", "names": names, "checker": r.choice(("a", "a", "b", "none", "ca", "ca", "cb")),
                         "as_str": r.random() < 0.3, "tuple_form": r.random() < 0.1})
             ids.append(f"h{hid}")
         body = []
@@ -98,6 +98,8 @@ def gen(seed, tier="quick"):
             ops.append({"op": "edit", "module": r.choice(MODULES), "same_len": r.random() < 0.5, "grow": r.randrange(1, 4),
                         "clock": r.choice((2, 2, 5, -100, -2, 10**7))})
         run = {"ops": ops}
+        if r.random() < 0.15:
+            run["bytecode"] = False  # this process runs with sys.dont_write_bytecode: caches are still READ
         fr = r.random()
         if fr < 0.12:
             run["faults"] = [{"site": "module.body", "k": r.randrange(1, 6), "exc": r.choice(("RuntimeError", "ValueError", "KeyboardInterrupt"))}]
